@@ -133,6 +133,38 @@ def run_big(ctx):
     m.close()
 
 
+def run_nulltag(ctx):
+    """null in a *tagged* nullable union (cases share a JSON kind): the NDJSON spelling of the null case is not documented, so the only oracle is
+    portability - whatever one language writes the other must read - plus both spellings ({"null": null} and a bare null) fed as reference input."""
+    un = U((("i", P("int32")), ("u", P("uint64"))), True, True)
+    us = U(((None, P("int32")), (None, P("int64"))), True)
+    pkg = Pkg("NullTag", [Proto("NtP", [("a", un), ("b", V(un)), ("c", M(P("string"), us)), ("d", S(us)), ("e", un), ("z", P("int32"))])])
+    m = rt.prepare_model(ctx, "nulltag", pkg, ["plain"])
+    if m is None:
+        raise Inconclusive("null-tag model did not build")
+    c = m.codec
+    proto = pkg.find("NtP")
+    cpp, py = rt.CppEndpoint(m, "plain"), rt.PyEndpoint(m)
+    sets = [[None, [None, (0, -15), None, (1, 7)], [["k1", None], ["k2", (0, -3)], ["k3", (1, 5)]], [None, (1, 9), None], (1, 2**63), 11],
+            [(0, -5), [], [], [], None, 12],
+            [None, [None], [["only", None]], [None], None, 13]]
+    for k, vals in enumerate(sets):
+        ctx.case(("nulltag", k))
+        for bare in (False, True):
+            c.bare_null = bare
+            try:
+                for f0, a, f1, f2 in itertools.product(["bin", "ndjson"], [cpp, py], ["bin", "ndjson"], ["bin", "ndjson"]):
+                    if bare and f0 != "ndjson":
+                        continue
+                    b = py if a is cpp else cpp
+                    chain(ctx, m, proto, vals, f0, [(a, f1), (b, f2)], "null-tag set %d (%s null in the reference NDJSON)" % (k, "bare" if bare else "tagged"),
+                          {"nulltag": k, "bare": bare})
+                    ctx.count("nulltag.chains")
+            finally:
+                c.bare_null = False
+    m.close()
+
+
 def run(ctx):
     common.build_yardl()
     quick = ctx.tier == "quick"
@@ -152,6 +184,7 @@ def run(ctx):
 
     pmap(work, keys, workers=8)
     pmap(lambda key: run_py_modes(ctx, key + "m", corpus.ser_package(key, depth=3), 4), keys[: (3 if quick else 30)], workers=8)
+    run_nulltag(ctx)
     run_sweep(ctx, range(-12, 3) if not quick else range(-11, 2))
     run_big(ctx)
     cxx.prune_cache()
